@@ -85,6 +85,18 @@ func (r *run) observeInst(p *replica) *obs {
 					o.Reads = "GetMany error: " + err.Error()
 				} else {
 					o.Reads = kernel.Canon(vs)
+					if o.Size > 4096 {
+						// wide lists (C15 wide-batch plans): Get walks from the head, so reading
+						// every index is quadratic; single reads are compared at both ends, around
+						// the 2^15 and 2^16 marks and at a stride
+						for _, i := range wideIndices(o.Size) {
+							v, err := p.api.li.Get(i)
+							if err != nil || i >= len(vs) || kernel.Canon(v) != kernel.Canon(vs[i]) {
+								o.Reads += fmt.Sprintf(" / Get(%d):%s %v", i, kernel.Canon(v), err)
+							}
+						}
+						break
+					}
 					var each []interface{}
 					for i := 0; i < o.Size; i++ {
 						v, err := p.api.li.Get(i)
@@ -277,3 +289,26 @@ func (r *run) afterStep(p *replica) {
 }
 
 var _ = sort.Strings
+
+// wideIndices: the indices at which a wide list is read one element at a time.
+func wideIndices(sz int) []int {
+	seen := map[int]bool{}
+	var out []int
+	add := func(i int) {
+		if i >= 0 && i < sz && !seen[i] {
+			seen[i] = true
+			out = append(out, i)
+		}
+	}
+	for d := 0; d < 8; d++ {
+		add(d)
+		add(sz - 1 - d)
+		add(1<<15 - 4 + d)
+		add(1<<16 - 4 + d)
+	}
+	for i := 0; i < sz; i += sz / 16 {
+		add(i)
+	}
+	sort.Ints(out)
+	return out
+}
